@@ -15,7 +15,7 @@ PROPS["C14"] = dict(
     rule=("Enumerated: every length 0..130 (thorough 0..200) x {random pair, equal, all-00/ff, every single-bit difference, "
           "ms-vs-ls byte disagreement, carry/borrow chain of every length at every offset}; exhaustive all 65536 1-byte operand pairs "
           "and all 2-byte operands (unary) / 2-byte a x structured b (binary); random+carry-heavy operands at the asm fast-path lengths "
-          "8/12/16/24/32/64; memzero every (offset,len) <= 80. Oracle: byte-vector big-integer model. Non-trivial = length >= 1 and "
+          "8/12/16/24/32/64; memzero every (offset,len) <= 80. Every increment/add/sub/compare case is repeated on operands that end right before or start right after a PROT_NONE page, and the 0xa5 fill around each ordinary operand is verified after the call (the fast paths are inline assembly, invisible to ASan). Oracle: byte-vector big-integer model. Non-trivial = length >= 1 and "
           "operands not a plain random pair; distinct = (build, sub-property, op, length, class, position)."),
     exhaustive_axes="lengths 0..130, bit positions, chain (offset,length), all 1-byte operand pairs, all 2-byte unary operands, memzero (off,len)",
     assumptions=ASSUME_COMMON + ["operand contents that are not enumerated come from a splitmix64 stream seeded by VERIF_SEED"],
@@ -31,7 +31,7 @@ PROPS["C03"] = dict(
           "(dispatch: dolbeau-avx2/ssse3/ref ChaCha20; xmm6int-avx2 / xmm6 asm / xmm6int-sse2 / ref Salsa20) x build variants; initial counters from "
           "{0, 1, random, 2^32-16..2^32+16, hi-word random with low word 2^32-16.., 2^64-17..2^64-1, IETF: largest that fits and 0..2 below}; "
           "counter walk: every start within +-17 blocks of 2^32, 2^33, 2^64 (wrap) and 0xffffffff00000000 x 16 lengths; IETF overflow probes in forked children "
-          "(must end in the misuse handler); 6000 random/structured core-function cases. Oracle: ref/stream.hpp models evaluated block-by-block from integer counters "
+          "(must end in the misuse handler): initial counter + blocks beyond 2^32 on real buffers, and length claims beyond 2^38 bytes (and near 2^64) through _ietf, _ietf_xor and _ietf_xor_ic on 4 KiB buffers; 6000 random/structured core-function cases. Oracle: ref/stream.hpp models evaluated block-by-block from integer counters "
           "(validated against RFC 8439, draft-xchacha, Salsa20 spec and NaCl vectors). Non-trivial = len>0 and (len%64!=0 or counter within 16 blocks of a carry or non-default backend); "
           "distinct = (build, cipher, form, len, mask, counter, alignment)."),
     exhaustive_axes="lengths 0..2304 per cipher/form/mask; counter starts +-17 around each carry boundary",
@@ -61,8 +61,8 @@ PROPS["C16"] = dict(
     builds=[("asan", "native")],
     builds_thorough=[("asan", "native"), ("asan", "portable"), ("plain", "native")],
     level="exploration",
-    rule=("Pad: every (unpadded length 0..320) x (block size 0..130, 255, 256, 257, 1000, 4096, 65536, 2^20; large blocks thinned) x capacity {unpadded, padded-1, padded, "
-          "padded+1, padded+blocksize+3, 0} with NULL and non-NULL length pointer; oracle: 0x80 then zeros to the next multiple, data and bytes past the padded length untouched, "
+    rule=("Pad: every (unpadded length 0..320) x (block size 0..130, 255, 256, 257, 1000, 4096, 65536, 2^20; large blocks thinned) x stated capacity {0, unpadded/2, unpadded-1, unpadded, padded-1, padded, "
+          "padded+1, padded+blocksize+3} (the buffer always holds the data; a smaller stated capacity must give -1 without a write) with NULL and non-NULL length pointer; oracle: 0x80 then zeros to the next multiple, data and bytes past the padded length untouched, "
           "-1 without any write when it does not fit or block size is 0, unpad(pad(x)) == |x|. Unpad: EXHAUSTIVE final blocks over {00,80,01,ff} for block sizes 1..6 with 0..2 preceding "
           "blocks full of markers; for larger block sizes marker at every position x {valid, 0x81, junk after, later marker, missing, markers before} x {aligned, non-multiple length}; "
           "too-short buffers and block size 0. Bytes before the final block are ASan-poisoned during sodium_unpad. Non-trivial = block size >= 2; distinct = (length, block size, capacity | final block contents)."),
@@ -108,7 +108,7 @@ PROPS["C02"] = dict(
     rule=("For each of the verifying APIs (6 AEADs x {decrypt, decrypt verify-only (m=NULL), decrypt_detached, detached verify-only} + AES-256-GCM afternm, secretbox open_easy/open_detached in both "
           "ciphers + NaCl form, box open_easy/open_detached/afternm forms/NaCl forms/seal_open in both ciphers, secretstream pull, crypto_auth x4 and crypto_onetimeauth verify, crypto_sign_open, "
           "verify_detached, Ed25519ph final_verify) a valid tuple is built with the library for message lengths {0,1,15,16,17,31,32,33,63,64,65,96} (every bit of every tamperable field flipped) and "
-          "{127,128,129,255,256,257,600} (256 sampled bit positions per field), then tampered: single-bit flip, truncation of each variable-length field to every shorter length (incl. below the tag size), "
+          "{127,128,129,255,256,257,600} (256 sampled bit positions per field), then tampered: single-bit flip, the same bit flipped in two bytes 4/8/16/32 bytes apart (differences that cancel in a lane-wise or XOR-folding comparison), truncation of each variable-length field to every shorter length (incl. below the tag size), "
           "extension by 1/2/15/16/17 bytes, field swapped in from an independent valid tuple. Oracle: return != 0, reported length 0, secretstream tag 0xff, every output byte equals the pre-fill or one "
           "constant filler byte (same value across independent keys/messages), no 8-byte window of the true plaintext in the output (ASan-poisoned exact buffers); the untampered tuple must verify and "
           "return the message. Excluded as spec-defined don't-care bits: the 22 clamped bits of the Poly1305 r key half, the 16-byte NaCl zero prefix; asymmetric key pairs are not flipped. "
@@ -126,7 +126,7 @@ PROPS["C18"] = dict(
           "2^31+-1, 2^32-1, 2^32-2, 300 random}: scripts of 0..4 rejected draws taken from {0, min-1, min/2, random<min} in every order followed by an accepted draw from {min, min+1, 2^32-1, random}; "
           "oracle: result = first draw >= 2^32 mod n, modulo n, exact number of draws consumed, 0 with no draw for n<2. (b) randombytes_buf_deterministic for every length 0..1100 against the reference "
           "ChaCha20-IETF keystream with nonce 'LibsodiumDRG' under 3 CPU masks. (c) 50 generating APIs (29 *_keygen, 3 X25519 key pairs, Ed25519 key pair, secretstream header, 2 sealed boxes, 5 password-hash "
-          "string functions, random Edwards/Ristretto points, random scalars with scripts forcing the rejection loop (>=L, zero, exactly L, L-1 with masked bits), randombytes_buf/random): output equals the "
+          "string functions, random Edwards/Ristretto points, random scalars with scripts forcing the rejection loop (>=L, zero, exactly L, L-1 with masked bits), randombytes_buf/random); a quarter of the cases first call randombytes_stir / randombytes_close (in four orders) on the installed source, which must stay the one in use): output equals the "
           "documented function of the served bytes (reference X25519 / Ed25519 / Ristretto / Base64 models), requested bytes >= secret size, replaying the same script reproduces the output, flipping one "
           "served byte that the specification uses changes it. Non-trivial = uniform scripts with >=1 rejection; every deterministic length >= 1; every generator case; distinct = (n, script) / (len, mask) / (API, script seed)."),
     exhaustive_axes="deterministic lengths 0..1100; rejection depth 0..4 with all orders of threshold-adjacent draws",
@@ -261,7 +261,7 @@ PROPS["C20"] = dict(
     level="fault_enumeration",
     rule=("Link-time interposition of malloc/calloc/realloc/posix_memalign/aligned_alloc/free/mmap/munmap in an ASan build, armed only around the library call. For each of 18 API forms (crypto_pwhash argon2i/argon2id, "
           "crypto_pwhash_str, _argon2i_str, _str_alg, str_verify with right and wrong password for argon2id and argon2i strings, the variant-specific verifier, needs_rehash with equal and different parameters, scrypt raw / _ll / "
-          "_str / _str_verify right and wrong, sodium_malloc, sodium_allocarray) and each of 3-5 parameter sets, a counting run records the n allocation requests and checks the fault-free verdict; then EVERY position i<n "
+          "_str / _str_verify right and wrong, sodium_malloc, sodium_allocarray) and each of 3-5 parameter sets, a counting run records the n allocation requests and checks the fault-free verdict (repeated under the CPU masks all / -AVX512F / -AVX2 / SSE2-3 only / none, since the scrypt sse/nosse and the Argon2 backends have their own failure paths); then EVERY position i<n "
           "is made to fail alone and EVERY suffix 'all requests from i on' is made to fail (2n runs). Oracle whenever the armed fault was actually hit: the call does not report success (str_verify never returns 0, "
           "needs_rehash returns neither 0 nor 1, no usable hash string is left in the output, sodium_malloc returns NULL), the wrapper's live-block count returns to its value before the call (no leak), no free/munmap "
           "of a block that is not live (double free), no ASan report, no signal. Non-trivial = a run in which the armed failure was hit; distinct = (API, parameter set, position, single/suffix)."),
@@ -275,9 +275,9 @@ PROPS["C10"] = dict(
     builds=[("asan", "native"), ("asan", "noasm"), ("asan", "noti"), ("asan", "portable"), ("asan", "nosimd")],
     builds_thorough=[("asan", "native"), ("asan", "noasm"), ("asan", "noti"), ("asan", "portable"), ("asan", "nosimd"), ("plain", "native"), ("plain", "portable")],
     level="exploration",
-    rule=("A shared deterministic corpus (pure function of VERIF_SEED) drives harness/apitable.hpp: 56 drivers covering ~290 public deterministic functions (all AEAD forms, MAC/hash one-shot and streaming, KDFs, stream "
+    rule=("A shared deterministic corpus (pure function of VERIF_SEED) drives harness/apitable.hpp: 59 drivers covering ~290 public deterministic functions (all AEAD forms, MAC/hash one-shot and streaming, KDFs, stream "
           "ciphers and cores, secretbox/box incl. NaCl and afternm forms, seal_open, secretstream, X25519, kx, Ed25519 incl. ph and conversions, Edwards/Ristretto group, scalar and hash-to-group functions, comparison/"
-          "arithmetic helpers, codecs, padding, Argon2/scrypt raw + verify/needs_rehash), with argument lengths at block boundaries (0,1,15-17,31-33,63-65,127-129,255-257,511-513,1023-1025) and random lengths <= 4 KiB. "
+          "arithmetic helpers, codecs, padding, Argon2/scrypt raw + verify/needs_rehash), with structured arguments where the backends' input screening could disagree (X25519 low-order / non-canonical / sparse points, stream counters that put the 2^32 carry at a vector-stride boundary, Poly1305 blocks solved for a carry-critical accumulator, Argon2 with more than one address block per segment, every prefix of a hash string) and argument lengths at block boundaries (0,1,15-17,31-33,63-65,127-129,255-257,511-513,1023-1025) and random lengths <= 4 KiB. "
           "(a) in-process, per case: outputs and return codes under every mask of the chain AVX-512F > AVX2 > AVX > SSE4.1 > SSSE3 > SSE3 > none, with AES-NI/PCLMUL off, and under random closed feature subsets must "
           "equal those of the reference configuration (mask none; for AES-256-GCM: mask all, compared only where it is available). (b) across builds {native, noasm, noti, portable, nosimd} (thorough: + gcc builds): the "
           "driver compares the per-case digests of all builds. (c) for all 1024 subsets of the 10 feature bits: reported flags == detected & mask and crypto_aead_aes256gcm_is_available() == aesni & pclmul & avx of "
@@ -293,11 +293,11 @@ PROPS["C12"] = dict(
     builds_thorough=[("asan", "native"), ("asan", "noasm"), ("asan", "portable"), ("asan", "noti"), ("asan", "nosimd")],
     fuzz=dict(name="fuzz_api", sources=["fuzz/fuzz_api.cpp"], procs=8, runs_quick=25000, time_quick=45, runs_thorough=100000000, time_thorough=900, max_len=64),
     level="exploration",
-    rule=("harness/apitable.hpp drives ~290 public functions (56 drivers; the list of covered names is in the table and the count in the evidence notes). Every input buffer is an exact-size heap block whose surroundings are "
+    rule=("harness/apitable.hpp drives ~290 public functions (59 drivers; the list of covered names is in the table and the count in the evidence notes). Every input buffer is an exact-size heap block whose surroundings are "
           "ASan-poisoned, placed at a generated misalignment 0..15; every output buffer has exactly the documented size; NULL is passed for zero-length optional pointers; decrypt/open/verify paths receive valid inputs "
           "that are then bit-flipped half of the time, codecs and unpad receive attacker-style text, password-hash verifiers receive cost-guarded mutated strings. Enumerated: the first variable length of every driver "
-          "takes every value 0..1100 (public-key drivers every 7th, password hashing every 23rd), every third length also pins the second length; 150000 fully random cases; CPU masks rotate through the whole chain incl. "
-          "AES-NI off; builds native, noasm, portable. Size limits: 21 probes x 5 overshoots (message lengths beyond each *_MESSAGEBYTES_MAX, IETF counter overflow, hex/Base64 capacity and variant, sodium_pad overflow, "
+          "takes every value 0..1100 (public-key drivers every 7th, password hashing every 23rd), every third length also pins the second length; the sweep is repeated with every buffer ending right before / starting right after a PROT_NONE page (hardware guard: also catches accesses made by hand-written or inline assembly, which ASan does not instrument), and 2/5 of the random cases use these guard modes; 150000 fully random cases; CPU masks rotate through the whole chain incl. "
+          "AES-NI off; builds native, noasm, portable. Size limits: 24 probes x 5 overshoots (message lengths beyond each *_MESSAGEBYTES_MAX, IETF counter overflow, hex/Base64 capacity and variant, sodium_pad overflow, "
           "randombytes_buf_deterministic 2^38) in forked children with tiny real buffers and a misuse handler that exits 42: the request must be refused (exit 42 or error return), never processed. libFuzzer stage "
           "(fuzz/fuzz_api.cpp, 8 processes, structured decode of bytes into driver/mask/alignment/lengths/seed, seed corpus for every driver). Oracle: no ASan report, no UBSan report except 'misaligned address' in "
           "x86-only SIMD files and 'applying zero offset to null pointer', no signal. Non-trivial = a call with a variable length > 0; distinct = (build, driver, lengths, mask, seed)."),
@@ -314,7 +314,7 @@ PROPS["C19"] = dict(
     rule=("Each trial is a fresh process of a ThreadSanitizer build (library and harness instrumented): N in 2..16 threads are released from a barrier, each with a generated pre-delay (none, k sched_yield calls, a spin of "
           "generated length) so that the arrival order varies, call sodium_init() and then run a generated workload of 1..6 API-table drivers (all families: AEAD, box, sign, hashes, KDF, streams, codecs, padding, "
           "small-cost password hashing) on thread-private buffers, followed by operations on shared library state: randombytes_buf/uniform/random on the active random source, key generators, crypto_*_keypair, "
-          "sodium_malloc/allocarray/mprotect_*/free. Two families: default random source (280 trials) and randombytes_internal_implementation installed before init (120 trials). Oracle: no ThreadSanitizer report "
+          "sodium_malloc/allocarray/mprotect_*/free. Two families: default random source (280 trials) and randombytes_internal_implementation installed before init (120 trials); half of the trials run under a reduced CPU-feature mask and a third make every thread run the same API entry. A third sub-property ('focused') enumerates every API-table entry x 6 CPU masks (all, -AVX512F, -AVX2, SSE2/3 only, none, AES-NI off): all threads run that one entry at once, so function-local state that should be per call is touched by two unsynchronised threads. A trial that has not finished after 180 s (normal < 3 s) is killed and reported as a hang. Oracle: no ThreadSanitizer report "
           "(happens-before: a race is flagged whenever the two accesses are unordered in the observed execution), exactly one thread gets 0 from sodium_init and all others 1, a later call returns 1, and every thread's "
           "output digest equals the digest of the same workload recomputed sequentially after the join. A failing trial is re-run 5 times and reported if it fails at least twice. "
           "Non-trivial = every trial has N >= 2; the histogram records trials in which >= 2 threads had reached sodium_init before the first one returned; distinct = (N, seed, family)."),
